@@ -19,6 +19,10 @@ pub enum FStep {
     Mount,
     /// mount with FsOptions::strict(false)
     MountLenient,
+    /// mount with FsOptions::update_accessed_date(true)
+    MountAtime,
+    /// write to the open file until the volume is full (the out-of-space error that ends it is expected)
+    FillVolume,
     Unmount,
     Stats,
     Status,
@@ -51,6 +55,9 @@ pub struct Script {
     pub setup: Vec<FStep>,
     /// the operation under fault injection (may be several public calls)
     pub target: Vec<FStep>,
+    /// run on the populated volume after a filler file has taken every free cluster
+    #[serde(default)]
+    pub full: bool,
 }
 
 #[derive(Clone, Debug, Serialize, Deserialize)]
@@ -117,6 +124,18 @@ impl Exec {
                 let dev = self.dev.handle();
                 let clock = self.clock.clone();
                 let s = self.rec("FileSystem::new (strict off)", |_| Session::mount(&dev, &clock, &MountOpts { strict: false, ..MountOpts::default() }));
+                match s {
+                    Some(s) => {
+                        self.sess = Some(s);
+                        true
+                    }
+                    None => false,
+                }
+            }
+            FStep::MountAtime => {
+                let dev = self.dev.handle();
+                let clock = self.clock.clone();
+                let s = self.rec("FileSystem::new (access dates on)", |_| Session::mount(&dev, &clock, &MountOpts { access_date: true, ..MountOpts::default() }));
                 match s {
                     Some(s) => {
                         self.sess = Some(s);
@@ -272,6 +291,19 @@ impl Exec {
                             }
                         }
                         ok
+                    }
+                    FStep::FillVolume => {
+                        let data = vec![0x5Au8; 1 << 16];
+                        loop {
+                            let before = self.recs.len();
+                            match self.rec("File::write", |_| f.write(&data)) {
+                                Some(0) => break true,
+                                Some(_) => {
+                                    self.recs.truncate(before);
+                                }
+                                None => break matches!(self.recs.last().map(|r| &r.result), Some(Err((EK::NotEnoughSpace, _)))),
+                            }
+                        }
                     }
                     FStep::SeekStart(o) => self.rec("File::seek", |_| f.seek(fatfs::SeekFrom::Start(*o))).is_some(),
                     FStep::SeekEnd(o) => self.rec("File::seek", |_| f.seek(fatfs::SeekFrom::End(*o))).is_some(),
@@ -429,20 +461,27 @@ fn base_setup() -> Vec<FStep> {
 
 /// directories whose last cluster is exactly full ("fulldir") or has one free slot left ("almostdir"): the next
 /// entry makes the directory grow (allocation + zeroing of a new directory cluster), for "almostdir" in the middle
-/// of an entry's slot run
+/// of an entry's slot run. The library writes a long-name run for every name, so a name of up to 13 units takes two
+/// slots and one of 14..26 units three.
 fn full_dir_setup(vol: &VolCfg) -> Vec<FStep> {
     let slots = (vol.cluster_size() / 32) as usize;
     let mut v = Vec::new();
     if slots > 130 {
         return v;
     }
-    for (dir, spare) in [("dir2/fulldir", 0usize), ("dir2/almostdir", 1usize)] {
-        v.push(FStep::CreateDir(dir.into()));
-        // "." and ".." take two slots; upper-case 8.3 names take exactly one slot each
-        for i in 0..slots - 2 - spare {
-            v.push(FStep::CreateFile(format!("{}/F{:03}", dir, i)));
-            v.push(FStep::CloseFile);
-        }
+    // fulldir: "." and ".." + (slots - 2) / 2 two-slot entries
+    v.push(FStep::CreateDir("dir2/fulldir".into()));
+    for i in 0..(slots - 2) / 2 {
+        v.push(FStep::CreateFile(format!("dir2/fulldir/F{:03}", i)));
+        v.push(FStep::CloseFile);
+    }
+    // almostdir: "." and ".." + one three-slot entry + (slots - 6) / 2 two-slot entries = slots - 1
+    v.push(FStep::CreateDir("dir2/almostdir".into()));
+    v.push(FStep::CreateFile("dir2/almostdir/fourteen units".into()));
+    v.push(FStep::CloseFile);
+    for i in 0..(slots - 6) / 2 {
+        v.push(FStep::CreateFile(format!("dir2/almostdir/F{:03}", i)));
+        v.push(FStep::CloseFile);
     }
     v
 }
@@ -486,6 +525,17 @@ pub fn targets() -> Vec<(&'static str, Vec<FStep>, Vec<FStep>)> {
         ("move_dir_into_almost_full_dir", m(), vec![FStep::Rename("dir1/sub".into(), "dir2/almostdir/sub moved".into())]),
         ("create_in_full_root", m(), vec![FStep::CreateFile("G00".into())]),
         ("create_long_in_full_root", m(), vec![FStep::CreateFile("a long name in the root spanning slots.txt".into())]),
+        // the access-date option makes reads write (the entry's access date, when the handle is flushed)
+        ("read_with_access_dates", vec![FStep::MountAtime], vec![FStep::OpenFile("big.bin".into()), FStep::Read(100), FStep::Flush]),
+        ("list_and_read_with_access_dates", vec![FStep::MountAtime], vec![FStep::ListDir("dir1".into()), FStep::OpenFile("dir1/sub/deep file.txt".into()), FStep::SeekStart(600), FStep::Read(900), FStep::Flush]),
+        // no free cluster left (names prefixed "full_volume_" run on the base image with a filler file): the calls fail
+        // with the out-of-space error and clean up after themselves - device calls like any others
+        ("full_volume_create_long_in_almost_full_dir", m(), vec![FStep::CreateFile("dir2/almostdir/a long name spanning three slots.txt".into())]),
+        ("full_volume_move_into_almost_full_dir", m(), vec![FStep::Rename("empty.txt".into(), "dir2/almostdir/moved here with a long name.txt".into())]),
+        ("full_volume_mkdir", m(), vec![FStep::CreateDir("dir2/a new directory with a long name".into())]),
+        ("full_volume_mkdir_in_full_dir", m(), vec![FStep::CreateDir("dir2/fulldir/NEWDIR".into())]),
+        ("full_volume_append", m(), vec![FStep::OpenFile("big.bin".into()), FStep::SeekEnd(0), FStep::Write(1500), FStep::Flush]),
+        ("full_volume_write_to_empty_file", m(), vec![FStep::OpenFile("empty.txt".into()), FStep::Write(10), FStep::Flush]),
     ]
 }
 
@@ -532,19 +582,60 @@ pub fn populated(vol: &VolCfg) -> Result<Store, String> {
     };
     let mut store = run_steps(base, &setup)?;
     if vol.fat == 32 {
-        // pad the chained root directory with one-slot entries until its last cluster is exactly full
+        // pad the chained root directory with two- and three-slot entries until its last cluster is exactly full
         let dec = crate::refdec::decode(&store, crate::refdec::DecodeOpts::default()).map_err(|e| format!("populated volume does not decode: {}", e))?;
         let slots = (vol.cluster_size() / 32) as usize;
-        let missing = (slots - dec.root.used_slots % slots) % slots;
+        let mut missing = (slots - dec.root.used_slots % slots) % slots;
         let mut pad = vec![FStep::Mount];
-        for i in 0..missing {
-            pad.push(FStep::CreateFile(format!("R{:03}", i)));
+        let mut i = 0;
+        while missing > 0 {
+            if missing % 2 == 1 {
+                if missing < 3 {
+                    missing += slots;
+                }
+                pad.push(FStep::CreateFile(format!("fourteen un{:03}", i)));
+                missing -= 3;
+            } else {
+                pad.push(FStep::CreateFile(format!("R{:03}", i)));
+                missing -= 2;
+            }
             pad.push(FStep::CloseFile);
+            i += 1;
         }
         pad.push(FStep::Unmount);
         store = run_steps(store, &pad)?;
     }
+    // the shapes the targets rely on, confirmed by the independent decoder
+    let dec = crate::refdec::decode(&store, crate::refdec::DecodeOpts::default()).map_err(|e| format!("populated volume does not decode: {}", e))?;
+    let slots = (vol.cluster_size() / 32) as usize;
+    if vol.fat == 32 && dec.root.used_slots % slots != 0 {
+        return Err(format!("populated FAT32 root uses {} slots: its last cluster is not exactly full", dec.root.used_slots));
+    }
+    if slots <= 130 {
+        let find = |name: &str| -> Option<usize> {
+            let d2 = dec.root.entries.iter().find(|e| String::from_utf16_lossy(&e.visible_units()) == "dir2")?.child.as_ref()?;
+            let d = d2.entries.iter().find(|e| String::from_utf16_lossy(&e.visible_units()) == name)?.child.as_ref()?;
+            Some(d.used_slots)
+        };
+        if find("fulldir") != Some(slots) || find("almostdir") != Some(slots - 1) {
+            return Err(format!("populated directories have {:?} / {:?} used slots, wanted {} / {}", find("fulldir"), find("almostdir"), slots, slots - 1));
+        }
+    }
     Ok(store)
+}
+
+/// the populated volume with every free cluster taken by a filler file
+pub fn filled(vol: &VolCfg, base: Store) -> Result<Store, String> {
+    let devp = MemDev::new(base);
+    let clock = Clock::new(650_000_000_000);
+    let mut ex = Exec { dev: devp.handle(), clock, sess: None, recs: Vec::new() };
+    for st in [FStep::Mount, FStep::CreateFile("dir1/FILLER.BIN".into()), FStep::FillVolume, FStep::CloseFile, FStep::Unmount] {
+        if !ex.step(&st) {
+            return Err(format!("filling {:?}: step {:?} failed: {:?}", vol, st, ex.recs.last().map(|r| (&r.what, &r.result))));
+        }
+    }
+    drop(ex);
+    Ok(devp.take_store())
 }
 
 fn eval_fault(base: &Store, script: &Script, k: u64, n: u64) -> CaseOut {
@@ -564,7 +655,7 @@ fn eval_fault(base: &Store, script: &Script, k: u64, n: u64) -> CaseOut {
 fn blank_format_script(vol: &VolCfg) -> (Store, Script) {
     let bytes = vol.total_sectors as u64 * vol.bps as u64;
     let st = Store::dense(bytes as usize, 0xD1);
-    (st, Script { name: "format_volume".into(), vol: vol.clone(), setup: vec![], target: vec![FStep::Format] })
+    (st, Script { name: "format_volume".into(), vol: vol.clone(), setup: vec![], target: vec![FStep::Format], full: false })
 }
 
 pub fn replay(v: &serde_json::Value) -> Result<Option<String>, String> {
@@ -572,7 +663,13 @@ pub fn replay(v: &serde_json::Value) -> Result<Option<String>, String> {
         return super::c09std::replay(v);
     }
     let fc: FaultCase = serde_json::from_value(v["case"].clone()).map_err(|e| format!("bad fault case: {}", e))?;
-    let base = if fc.script.target == vec![FStep::Format] { blank_format_script(&fc.script.vol).0 } else { populated(&fc.script.vol)? };
+    let base = if fc.script.target == vec![FStep::Format] {
+        blank_format_script(&fc.script.vol).0
+    } else if fc.script.full {
+        filled(&fc.script.vol, populated(&fc.script.vol)?)?
+    } else {
+        populated(&fc.script.vol)?
+    };
     let n = execute(&base, &fc.script, 0, u64::MAX / 100).target_calls;
     Ok(eval_fault(&base, &fc.script, fc.k, n).violation)
 }
@@ -608,7 +705,7 @@ fn fstep_strategy() -> impl Strategy<Value = FStep> {
 }
 
 pub fn run(tier: Tier, seed: u64) -> i32 {
-    let rule = "exhaustive single-fault enumeration: for every volume (FAT12/16/32, FAT32 with unknown FS-info count) x representative operation (mount, stats, status flags, labels, list, deep open+read, create+write+flush, overwrite, seek+read, append, truncate, set times, mkdir, remove file/dir, rename, move file/dir, extents, unmount, format) every position k of the operation's device-call sequence fails once with a tagged error (read, write, seek and flush alike); the public call (or iterator item) in progress must return Error::Io with that tag, within 50*N+1000 device calls and without panic; faults inside destructors are exempt (drop-depth hook); plus the same enumeration on a std::io storage behind fatfs::StdIoWrapper with a std::io::Error of each kind except Interrupted (the one kind the storage traits document as 'retry'): the call must return Error::Io carrying that kind; plus random scripts whose last steps are enumerated the same way; non-trivial = the fault fired outside a destructor; distinct by (script, volume, k)";
+    let rule = "exhaustive single-fault enumeration: for every volume (FAT12/16/32, FAT32 with unknown FS-info count) x representative operation (mount, stats, status flags, labels, list, deep open+read, create+write+flush, overwrite, seek+read, append, truncate, set times, mkdir, remove file/dir, rename, move file/dir, extents, unmount, format, reads with the access-date option on, and create / mkdir / move / append on a volume without a free cluster, whose out-of-space paths clean up after themselves) every position k of the operation's device-call sequence fails once with a tagged error (read, write, seek and flush alike); the public call (or iterator item) in progress must return Error::Io with that tag, within 50*N+1000 device calls and without panic; faults inside destructors are exempt (drop-depth hook); plus the same enumeration on a std::io storage behind fatfs::StdIoWrapper with a std::io::Error of each kind except Interrupted (the one kind the storage traits document as 'retry'): the call must return Error::Io carrying that kind; plus random scripts whose last steps are enumerated the same way; non-trivial = the fault fired outside a destructor; distinct by (script, volume, k)";
     let mut rep = Report::new("C09", tier, seed, "fault_enumeration", rule);
     rep.assume("single faults only (one failing device call per run)");
     rep.assume("device calls issued from File::drop / FileSystem::drop are exempt, identified by the verif_drop_depth hook");
@@ -650,6 +747,16 @@ pub fn run(tier: Tier, seed: u64) -> i32 {
             return 2;
         }
     }
+    let mut full_bases: Vec<Store> = Vec::new();
+    for (i, b) in bases.iter().enumerate() {
+        match filled(&vols[i], b.as_ref().unwrap().clone()) {
+            Ok(s) => full_bases.push(s),
+            Err(e) => {
+                eprintln!("cannot fill volume {}: {}", i, e);
+                return 2;
+            }
+        }
+    }
     let mut blk = run::run_indexed("single_fault_enumeration", work.len() as u64, |idx, blk| {
         let (vi, ti) = work[idx as usize];
         let vol = &vols[vi];
@@ -658,7 +765,9 @@ pub fn run(tier: Tier, seed: u64) -> i32 {
             (st, sc)
         } else {
             let (name, setup, target) = &tg[ti];
-            (bases[vi].as_ref().unwrap().clone(), Script { name: name.to_string(), vol: vol.clone(), setup: setup.clone(), target: target.clone() })
+            let full = name.starts_with("full_volume_");
+            let base = if full { full_bases[vi].clone() } else { bases[vi].as_ref().unwrap().clone() };
+            (base, Script { name: name.to_string(), vol: vol.clone(), setup: setup.clone(), target: target.clone(), full })
         };
         let free = execute(&base, &script, 0, u64::MAX / 100);
         if let Err(m) = free.verdict {
@@ -716,7 +825,7 @@ pub fn run(tier: Tier, seed: u64) -> i32 {
                 let cut = rs.steps.len() - 1.min(rs.steps.len());
                 let mut setup = vec![FStep::Mount];
                 setup.extend_from_slice(&rs.steps[..cut]);
-                let script = Script { name: "random".into(), vol: vols2[vi].clone(), setup, target: rs.steps[cut..].to_vec() };
+                let script = Script { name: "random".into(), vol: vols2[vi].clone(), setup, target: rs.steps[cut..].to_vec(), full: false };
                 let mut agg = CaseOut::default();
                 agg.hash = run::hash_str(&serde_json::to_string(rs).unwrap());
                 // setup steps may legitimately fail (missing files ...): drop failing ones by executing leniently
@@ -778,6 +887,6 @@ fn execute_lenient(base: &Store, script: &Script, k: u64, budget: u64) -> Outcom
         s.abandon();
     }
     let _ = dev.take_store();
-    let sc = Script { name: script.name.clone(), vol: script.vol.clone(), setup: ok_steps, target: script.target.clone() };
+    let sc = Script { name: script.name.clone(), vol: script.vol.clone(), setup: ok_steps, target: script.target.clone(), full: script.full };
     execute(base, &sc, k, budget)
 }
